@@ -138,7 +138,7 @@ func deadlineCases(fn *ssa.Function, v ssa.Value, p an.Path, in *ssa.CallCommon,
 	}
 	if ex, ok := v.(*ssa.Extract); ok && ex.Index == 0 && depth < 2 && in == nil {
 		if hc, ok := ex.Tuple.(*ssa.Call); ok {
-			if g := an.StaticCallee(&hc.Call); g != nil && len(g.Blocks) > 0 && g.Pkg != nil && strings.HasPrefix(g.Pkg.Pkg.Path(), an.ModulePrefix) {
+			if g := an.StaticCallee(&hc.Call); an.InModuleFn(g) {
 				var out []deadlineCase
 				for _, rb := range an.ReturnBlocks(g) {
 					rv := an.ReturnValues(an.LastInstr(rb).(*ssa.Return))
